@@ -13,6 +13,8 @@ import (
 
 	"github.com/llir/llvm/asm"
 	"github.com/llir/llvm/ir"
+	"github.com/llir/llvm/ir/constant"
+	"github.com/llir/llvm/ir/metadata"
 
 	"verif/harness/llvmoracle"
 	"verif/harness/mbt"
@@ -41,7 +43,7 @@ CONSTANTS
   SourceSet = "%s"
   PermAllUpTo = %d
 VIEW View
-INVARIANTS Deterministic ErrorOnFault NeverCrash RefIdentity NoDummyLeft ScaffoldBeforeUse CanonOrder
+INVARIANTS Deterministic ErrorOnFault NeverCrash RefIdentity NoDummyLeft ScaffoldBeforeUse CanonOrder TextualIsPositional
 ACTION_CONSTRAINT Emit
 CHECK_DEADLOCK FALSE
 `
@@ -66,7 +68,7 @@ func Generate(rep *mbt.Report, sourceSet string, permAllUpTo int) []trsrc.Vector
 	seen := map[string]bool{}
 	var out []trsrc.Vector
 	for _, v := range vs {
-		k := trsrc.SrcKey(v.Src)
+		k := trsrc.VecKey(v)
 		if seen[k] {
 			continue
 		}
@@ -76,7 +78,7 @@ func Generate(rep *mbt.Report, sourceSet string, permAllUpTo int) []trsrc.Vector
 		}
 		out = append(out, v)
 	}
-	sort.Slice(out, func(i, j int) bool { return trsrc.SrcKey(out[i].Src) < trsrc.SrcKey(out[j].Src) })
+	sort.Slice(out, func(i, j int) bool { return trsrc.VecKey(out[i]) < trsrc.VecKey(out[j]) })
 	if len(out) == 0 {
 		mbt.Infra("TLC emitted no vectors for %q", sourceSet)
 	}
@@ -109,7 +111,7 @@ func Run(vs []trsrc.Vector) []*Case {
 	cs := make([]*Case, len(vs))
 	llvmoracle.Parallel(len(vs), func(i int) {
 		c := &Case{Vector: vs[i]}
-		c.Text = trsrc.Render(vs[i].Src)
+		c.Text = trsrc.RenderLay(vs[i].Src, vs[i].Lay)
 		c.LLVMOK, c.LLVMDiag = llvmoracle.Accepts(c.Text)
 		c.Mod, c.Err, c.Panic = ParseReal("vector.ll", c.Text)
 		if c.Mod != nil {
@@ -133,6 +135,21 @@ func Order(m *ir.Module) *trsrc.Module {
 	}
 	for _, t := range m.TypeDefs {
 		o.Types = append(o.Types, t.Name())
+	}
+	o.RealAsms = append([]string{}, m.ModuleAsms...)
+	o.RealSrcfile, o.RealTriple, o.RealDatalayout = m.SourceFilename, m.TargetTriple, m.DataLayout
+	o.RealStrs = map[string]string{}
+	for _, g := range m.Globals {
+		if ca, ok := g.Init.(*constant.CharArray); ok {
+			o.RealStrs["global:"+gname(!g.IsUnnamed(), g.GlobalName, g.GlobalID)] = string(ca.X)
+		}
+	}
+	for _, md := range m.MetadataDefs {
+		if t, ok := md.(*metadata.Tuple); ok && len(t.Fields) == 1 {
+			if ms, ok := t.Fields[0].(*metadata.String); ok {
+				o.RealStrs[fmt.Sprintf("md:%d", md.ID())] = ms.Value
+			}
+		}
 	}
 	for _, c := range m.ComdatDefs {
 		o.Comdats = append(o.Comdats, c.Name)
@@ -212,6 +229,9 @@ func SectionOrder(printed string) *trsrc.Module {
 }
 
 func eq(a, b []string) bool {
+	if len(a) == 0 && len(b) == 0 {
+		return true
+	}
 	if len(a) != len(b) {
 		return false
 	}
@@ -230,6 +250,30 @@ func CompareOrder(want *trsrc.Module, got *trsrc.Module, printed string) []strin
 	chk := func(name string, w, g []string) {
 		if !eq(w, g) {
 			diff = append(diff, fmt.Sprintf("%s: want %v got %v", name, w, g))
+		}
+	}
+	// string entities: module asm lines in textual order, the last target definition of each kind, and the
+	// bytes of the string constants (a raw line break is the line ending of the text)
+	var wantAsms []string
+	for _, a := range want.Asms {
+		wantAsms = append(wantAsms, trsrc.StrValue("asm", a))
+	}
+	str := func(name, w, g string) {
+		if w != g {
+			diff = append(diff, fmt.Sprintf("%s: want %q got %q", name, w, g))
+		}
+	}
+	if got.RealStrs != nil {
+		chk("module-asm", wantAsms, got.RealAsms)
+		str("source_filename", trsrc.StrValue("srcfile", want.Srcfile), got.RealSrcfile)
+		str("target-triple", trsrc.StrValue("triple", want.Triple), got.RealTriple)
+		str("target-datalayout", trsrc.StrValue("datalayout", want.Datalayout), got.RealDatalayout)
+		for _, se := range want.Strs {
+			k := se.K
+			if k != "md" {
+				k = "global"
+			}
+			str("string-constant", trsrc.StrValue(k, se.Val), got.RealStrs[k+":"+se.Key])
 		}
 	}
 	chk("types", want.Types, got.Types)
